@@ -1,3 +1,4 @@
+import CffiVerif.Generated.ErrnoSteps
 /-
 Model of cffi's errno handling (C22).
 
@@ -133,6 +134,39 @@ def specT (live : Int) : List Ev → Int × List Out
 
 /-- The cell that holds the live value in the current mode. -/
 def liveOf (d : Nat) (s : TState) : Int := if d % 2 = 0 then s.saved else s.errno
+
+/-! ### interpreter of the micro-steps extracted from the source (`Generated/ErrnoSteps.lean`)
+
+The machine state of a code site: the two cells, the local `err` of `b_get_errno`
+and the (already range-checked) argument of `b_set_errno`. -/
+
+structure Site where
+  s : TState
+  err : Int
+  arg : Int
+deriving DecidableEq, Repr
+
+/-- One micro-step; `save` / `restore` are calls of `save_errno_only` / `restore_errno_only`
+(through the `save_errno` / `restore_errno` macros), whose bodies are given. -/
+def microStep (saveBody restoreBody : List String) (fuel : Nat) (m : Site) (st : String) : Option Site :=
+  if st = "saved:=errno" then some { m with s := { m.s with saved := m.s.errno } }
+  else if st = "errno:=saved" then some { m with s := { m.s with errno := m.s.saved } }
+  else if st = "err:=errno" then some { m with err := m.s.errno }
+  else if st = "errno:=0" then some { m with s := { m.s with errno := 0 } }
+  else if st = "errno:=arg" then some { m with s := { m.s with errno := m.arg } }
+  else if st = "return err" then some m
+  else match fuel with
+    | 0 => none
+    | fuel + 1 =>
+      if st = "save" then saveBody.foldlM (microStep saveBody restoreBody fuel) m
+      else if st = "restore" then restoreBody.foldlM (microStep saveBody restoreBody fuel) m
+      else none                       -- guarded or unknown statement: not the modelled shape
+
+open CffiVerif.Generated in
+/-- Run a step list of the working tree with the working tree's own `save_errno_only` /
+`restore_errno_only` bodies. -/
+def runSite (steps : List String) (m : Site) : Option Site :=
+  steps.foldlM (microStep ErrnoSteps.saveOnly ErrnoSteps.restoreOnly 1) m
 
 /-- Events of other threads, and clobbering of the C errno by the interpreter
 while thread `t` runs Python code. -/
